@@ -11,3 +11,5 @@ import Goat.Props.C04
 import Goat.Model.OMap
 import Goat.Lemmas.OMap
 import Goat.Props.C10
+import Goat.Model.Load
+import Goat.Props.C15
